@@ -40,11 +40,6 @@ func runCase(t *chaingen.Tree, plan []mgrsim.Op, final bool) ([]mgrsim.Obs, *fai
 		}
 	}
 	all := append([]mgrsim.Op(nil), plan...)
-	for _, op := range plan {
-		if op.Kind == "prune" {
-			final = false // a pruned node legitimately refuses forks below the pruned height (C19)
-		}
-	}
 	if final {
 		all = append(all, mgrsim.FinalFlush(t)...)
 	}
@@ -65,11 +60,13 @@ func runCase(t *chaingen.Tree, plan []mgrsim.Op, final bool) ([]mgrsim.Obs, *fai
 		}
 	}
 	if final && fail == nil {
-		// heaviest-known: after every valid branch was submitted whole, no valid block is sufficiently heavier than the tip
+		// heaviest-known: after every valid branch was submitted whole, no valid block that the node could
+		// adopt (bodies on both sides of the fork point in its store: a pruned node legitimately refuses forks
+		// below the pruned height, C19) is sufficiently heavier than the tip
 		tip := t.Nodes[prev.Best[0]]
 		for _, x := range t.Nodes {
-			if x.ChainValid() && mgrsim.Heavier(x, tip) {
-				report(len(all), "c01-not-heaviest", "every valid branch was submitted as a whole, yet valid block %d is sufficiently heavier than the tip %d", x.Idx, tip.Idx)
+			if adoptable(t, x, prev, nil) && x.State.SufficientlyHeavierThan(tip.State) {
+				report(len(all), "c01-not-heaviest", "every valid branch was submitted as a whole, yet valid block %d is sufficiently heavier than the tip %d and every block needed to reorganise to it is in the node's store", x.Idx, tip.Idx)
 			}
 		}
 	}
@@ -138,6 +135,22 @@ func checkStep(t *chaingen.Tree, op mgrsim.Op, prev, o mgrsim.Obs, submitted map
 			report("c01-failed-call-moved-tip", "%v returned an error but the tip moved %d -> %d: %s", op, prevTip.Idx, tipN.Idx, o.ErrText)
 		}
 	}
+	// heaviest-known, per call: the reorg decision is taken for the last block of the submission. If that
+	// block is valid with its whole ancestry (generator's labels), sufficiently heavier than the tip before
+	// the call (core's rule on the generator's own states) and every block needed to reorganise to it is
+	// available to the node, the call must end with that block as the tip.
+	if (op.Kind == "add" || op.Kind == "addv") && len(op.Nodes) > 0 {
+		b := t.Nodes[op.Nodes[len(op.Nodes)-1]]
+		if b != tipN && adoptable(t, b, prev, &op) && b.State.SufficientlyHeavierThan(prevTip.State) {
+			ptw, pd := prevTip.Work()
+			btw, _ := b.Work()
+			if !o.Err {
+				report("c01-heavier-valid-chain-not-adopted", "%v returned no error, its last block %d is valid with its whole ancestry, every block needed to reorganise to it is available to the node and it is sufficiently heavier than the tip before the call (block %d: work %s > %s + %s/5), yet the tip is %d", op, b.Idx, prevTip.Idx, btw, ptw, pd, tipN.Idx)
+			} else if cleanBatch(t, op, prev) {
+				report("c01-heavier-valid-chain-refused", "%v failed (%s) although every submitted block is header-valid with a known parent, its last block %d is valid with its whole ancestry, every block needed to reorganise to it is available to the node and it is sufficiently heavier than the tip before the call (block %d: work %s > %s + %s/5)", op, o.ErrText, b.Idx, prevTip.Idx, btw, ptw, pd)
+			}
+		}
+	}
 	if o.Notified != (tipN != prevTip) {
 		report("c01-notify-mismatch", "%v: listeners notified=%v but tip changed=%v", op, o.Notified, tipN != prevTip)
 	}
@@ -179,25 +192,105 @@ func checkStep(t *chaingen.Tree, op mgrsim.Op, prev, o mgrsim.Obs, submitted map
 	}
 }
 
+// adoptable is the ground truth for "the node can reorganise to x": x and its whole ancestry are valid
+// (labels from core and a fresh linear node), and every block strictly above the fork point of x and the
+// current tip is available to the node — on the best chain's side the blocks that must be reverted still
+// have their bodies (a pruned body makes the reorg legitimately impossible, C19); on x's side, for a
+// call (op != nil), each block is part of the submission or stored with its genuine body (a same-id copy
+// submitted later legitimately replaces a body that was never applied). At the end of a history
+// (op == nil) every valid block has just been submitted genuinely by the final flush, so x's side needs no
+// condition: a node that then lacks or shadows one of those bodies is at fault. before is the observation
+// preceding the call.
+func adoptable(t *chaingen.Tree, x *chaingen.Node, before mgrsim.Obs, op *mgrsim.Op) bool {
+	if x.TwinOf != nil || x.Parent == nil || !x.ChainValid() || len(before.Best) == 0 || before.Best[0] < 0 {
+		return false
+	}
+	inOp := map[int]bool{}
+	if op != nil {
+		for _, id := range op.Nodes {
+			if t.Nodes[id].TwinOf != nil {
+				return false // a same-id copy in the submission may replace a stored body
+			}
+			inOp[id] = true
+		}
+	}
+	onBest := map[int]bool{}
+	for _, id := range before.Best {
+		onBest[id] = true
+	}
+	f := x
+	for ; !onBest[f.Idx]; f = f.Parent {
+		if k := known(before, f.Idx); op != nil && !(inOp[f.Idx] || k.Body && k.Good) {
+			return false
+		}
+	}
+	for _, id := range before.Best {
+		if id == f.Idx {
+			break
+		}
+		if !known(before, id).Body {
+			return false
+		}
+	}
+	return true
+}
+
+// known returns the store's record of (non-twin) node id in an observation.
+func known(o mgrsim.Obs, id int) mgrsim.KnownEntry {
+	if id < len(o.Known) && o.Known[id].ID == id {
+		return o.Known[id]
+	}
+	for _, k := range o.Known {
+		if k.ID == id {
+			return k
+		}
+	}
+	return mgrsim.KnownEntry{ID: id}
+}
+
+// cleanBatch: nothing in the submission itself justifies an error — every block is header-valid, not
+// from the future, not a same-id copy, and its parent is known to the node or precedes it in the batch.
+func cleanBatch(t *chaingen.Tree, op mgrsim.Op, before mgrsim.Obs) bool {
+	seen := map[int]bool{}
+	for _, id := range op.Nodes {
+		y := t.Nodes[id]
+		if y.TwinOf != nil || y.Parent == nil || !y.HdrOK || y.Future {
+			return false
+		}
+		if k := known(before, y.Parent.Idx); !(seen[y.Parent.Idx] || k.State == 1 || k.State == 2) {
+			return false
+		}
+		seen[id] = true
+	}
+	return true
+}
+
 // classifyTipState re-runs the history on an observed store and lets the C02 judge decide
-// whether a tip state that differs from the linear replay is the known expiry-order finding
-// (the only served data differing from a linear twin are permuted expiration lists, explained
-// by the exported diffs) — then the kind is c01-tip-state-differs-by-expiry-order.
-func classifyTipState(t *chaingen.Tree, plan []mgrsim.Op) string {
+// whether a tip state that differs from the linear replay — or a valid chain refused because the
+// state reached in the middle of the reorg differs from the one its blocks commit to — is the known
+// expiry-order finding (the only served data differing from a linear twin are permuted expiration
+// lists, explained by the exported diffs); then the kind is c01-tip-state-differs-by-expiry-order /
+// c01-valid-chain-refused-by-expiry-order. Anything else keeps its kind.
+func classifyTipState(t *chaingen.Tree, plan []mgrsim.Op, kind string) string {
 	nd, err := storeobs.NewNode(t, chain.NewMemDB(), nil)
 	if err != nil {
-		return "c01-tip-state-differs"
+		return kind
 	}
 	for _, op := range plan {
 		if o := nd.Do(op); o.Panic {
-			return "c01-tip-state-differs"
+			return kind
 		}
 	}
 	f, _ := storeobs.Judge(nd, storeobs.NewTwins(t))
 	if f != nil && f.Kind == storeobs.KindF8 {
-		return "c01-tip-state-differs-by-expiry-order"
+		return byExpiryOrder[kind]
 	}
-	return "c01-tip-state-differs"
+	return kind
+}
+
+var byExpiryOrder = map[string]string{
+	"c01-tip-state-differs":           "c01-tip-state-differs-by-expiry-order",
+	"c01-heavier-valid-chain-refused": "c01-valid-chain-refused-by-expiry-order",
 }
 
 func encFull(n *chaingen.Node) []byte {
@@ -274,7 +367,7 @@ func safeTree(cs mgrsim.Case) (t *chaingen.Tree, msg string) {
 func run(c *hx.Ctx) {
 	res := c.Res
 	res.Shard = 40
-	res.Rule = "fork trees of real mined blocks (3 hardfork regimes, every tx kind, single-field corruptions) x random submission plans (path segments, single blocks, mixed batches, concatenated branches, duplicates, orphans first, pre-validated v2 segments); non-trivial := the history contains a reorg of depth >= 2 or a rejected submission; distinct by (tree seed, plan)"
+	res.Rule = "fork trees of real mined blocks (3 hardfork regimes, every tx kind, single-field corruptions) x random submission plans (path segments, single blocks, mixed batches, concatenated branches, duplicates, orphans first, pre-validated v2 segments); every fifth tree chains transactions inside blocks and re-mines the transactions of one branch on its siblings (same ids), plus directed revert-and-re-mine shapes; per call: a valid, sufficiently heavier, adoptable last block must become the tip; non-trivial := the history contains a reorg of depth >= 2 or a rejected submission; distinct by (tree seed, plan)"
 	var cases []string
 	doCase := func(cs mgrsim.Case, toCoq bool) {
 		t := cs.Tree()
@@ -307,6 +400,20 @@ func run(c *hx.Ctx) {
 		if mgrsim.HasTwin(t, cs.Plan) {
 			res.Count("histories-with-same-id-twin(monitors-only)")
 		}
+		if cs.Opts.Remine > 0 {
+			res.Count("histories-with-remined-transactions")
+			for _, n := range t.Nodes {
+				for _, k := range n.Kinds {
+					if k == "remined-v1" || k == "remined-v2" {
+						res.Count("blocks-carrying-" + k)
+						break
+					}
+				}
+			}
+		}
+		for _, k := range countAdoptions(t, cs.Plan, obs) {
+			res.Count(k)
+		}
 		res.CountN("calls", len(cs.Plan))
 		res.CountN("blocks", len(t.Nodes)-1)
 		if reorg2 {
@@ -320,13 +427,23 @@ func run(c *hx.Ctx) {
 				res.Count("corruption:" + n.Corrupt)
 			}
 		}
-		if f != nil && f.kind == "c01-tip-state-differs" {
+		if f != nil && byExpiryOrder[f.kind] != "" {
 			upto := append(append([]mgrsim.Op(nil), cs.Plan...), mgrsim.FinalFlush(t)...) // runCase appends the final flush
 			if f.at+1 < len(upto) {
 				upto = upto[:f.at+1]
 			}
-			if k := classifyTipState(t, upto); k != f.kind {
-				res.Fail(k, f.detail+" — the C02 judge attributes the difference to the expiration-list order (known finding F8)", map[string]any{"case": cs, "tree": describe(t)})
+			if k := classifyTipState(t, upto, f.kind); k != f.kind {
+				what := "difference"
+				if f.kind == "c01-heavier-valid-chain-refused" {
+					what = "refusal (the state reached inside the reorg is not the one the chain's blocks commit to)"
+				}
+				res.Fail(k, f.detail+" — the C02 judge attributes the "+what+" to the expiration-list order (known finding F8)", map[string]any{"case": cs, "tree": describe(t)})
+				if f.kind == "c01-heavier-valid-chain-refused" {
+					// the manager model takes a block's validity from its label; under F8 the node's applyTip
+					// disagrees with the label, so this history is judged by the monitors only
+					toCoq = false
+					res.Count("histories-excluded-from-correspondence(refusal-attributed-to-F8)")
+				}
 				f = nil
 			}
 		}
@@ -364,6 +481,11 @@ func run(c *hx.Ctx) {
 		return
 	}
 	for _, cs := range corpus() {
+		if t, gerr := safeTree(cs); t == nil {
+			res.Eval(fmt.Sprint("generator ", cs.Seed), true)
+			res.Fail("c01-linear-node-rejects-valid-block", "while building a directed fork tree a linear node (real chain.Manager fed only valid blocks in order) failed: "+gerr, map[string]any{"case": cs})
+			continue
+		}
 		doCase(cs, true)
 	}
 	n := c.Scale(240, 6000)
@@ -372,6 +494,14 @@ func run(c *hx.Ctx) {
 		cs := mgrsim.Case{Seed: r.U64(), Regime: i % 6, Opts: chaingen.GenOpts{Blocks: 5 + r.Intn(18), Branchiness: 2 + r.Intn(5), TxPerBlock: r.Intn(4), Corruptions: r.Intn(4), Jitter: r.Intn(4), OnInvalid: r.Intn(3), Twins: r.Intn(6) / 5}}
 		if cs.Regime >= 3 && r.Bool() {
 			cs.Opts.Jitter = 4000 // fast and slow blocks: branches diverge in work (near-ties for the 20% rule)
+		}
+		if i%5 == 1 {
+			// every fifth history (all six regimes in turn): blocks chain transactions inside themselves and
+			// sibling branches re-mine the transactions of the other branch, as after a real reorg
+			cs.Opts.Chained, cs.Opts.Remine = 2, 1+int(cs.Seed%3)
+			if cs.Opts.TxPerBlock == 0 {
+				cs.Opts.TxPerBlock = 2
+			}
 		}
 		t, gerr := safeTree(cs)
 		if t == nil {
@@ -385,7 +515,60 @@ func run(c *hx.Ctx) {
 	res.WriteCases("Run.Run_C01", cases)
 }
 
+// countAdoptions classifies, for the evidence, the calls at which the per-call heaviest-known monitor had
+// something to say: the last block was adoptable and sufficiently heavier.
+func countAdoptions(t *chaingen.Tree, plan []mgrsim.Op, obs []mgrsim.Obs) (keys []string) {
+	s := mgrsim.NewSim(t, nil)
+	var prev mgrsim.Obs
+	s.Observe(&prev)
+	for i, op := range plan {
+		if i >= len(obs) {
+			break
+		}
+		if (op.Kind == "add" || op.Kind == "addv") && len(op.Nodes) > 0 && len(prev.Best) > 0 && prev.Best[0] >= 0 {
+			b := t.Nodes[op.Nodes[len(op.Nodes)-1]]
+			pt := t.Nodes[prev.Best[0]]
+			if adoptable(t, b, prev, &op) && b.State.SufficientlyHeavierThan(pt.State) {
+				keys = append(keys, "calls-where-last-block-must-be-adopted")
+				if k := known(prev, b.Idx); k.Supp {
+					keys = append(keys, "calls-where-last-block-must-be-adopted/already-applied-once")
+				}
+			} else if b.TwinOf == nil && b.ChainValid() && b.State.SufficientlyHeavierThan(pt.State) {
+				keys = append(keys, "calls-where-heavier-valid-last-block-is-not-adoptable(bodies-missing)")
+			}
+		}
+		prev = obs[i]
+		if prev.Panic {
+			break
+		}
+	}
+	return
+}
+
 // corpus: minimised earlier failures and hand-picked shapes, run first.
 func corpus() []mgrsim.Case {
-	return nil
+	var out []mgrsim.Case
+	// a block that chains transactions inside itself is reverted and the competing branch re-mines the same
+	// transactions (at once, Remine 4, or possibly a block later, Remine 2); shapes: 1-2-3 | 2-4-5-6 and
+	// 1-2-3-4 | 1-5-6-7-8, submitted branch after branch
+	shapes := [][]int{{0, 1, 2, 2, 4, 5}, {0, 1, 2, 3, 1, 5, 6, 7}}
+	plans := [][]mgrsim.Op{
+		{{Kind: "add", Nodes: []int{1, 2, 3}}, {Kind: "add", Nodes: []int{4, 5, 6}}},
+		{{Kind: "add", Nodes: []int{1, 2, 3, 4}}, {Kind: "add", Nodes: []int{5, 6}}, {Kind: "add", Nodes: []int{7, 8}}},
+	}
+	kinds := [][]string{{"v1-chain"}, {"v1-chain-3", "v1-siafund-chain"}, {"v2-ephemeral", "v1-chain"}}
+	for regime := 0; regime < 3; regime++ {
+		for si := range shapes {
+			for ki, ks := range kinds {
+				if regime == 0 && ki == 2 || regime == 2 && ki != 2 {
+					continue
+				}
+				for _, remine := range []int{4, 2} {
+					out = append(out, mgrsim.Case{Seed: uint64(1000 + 100*regime + 10*si + ki + 5*remine), Regime: regime, Plan: plans[si],
+						Opts: chaingen.GenOpts{Shape: shapes[si], TxPerBlock: 2, Kinds: ks, Remine: remine}})
+				}
+			}
+		}
+	}
+	return out
 }
